@@ -30,7 +30,7 @@ def _determinism_selftest(prop_id: str, tier: str, seed: int, n: int):
              "--n", str(n), "--emit"], cwd=VERIF, env=env, stdout=subprocess.PIPE, stderr=subprocess.PIPE))
     for p in procs:
         try:
-            out, err = p.communicate(timeout=300)
+            out, err = p.communicate(timeout=1800)
         except subprocess.TimeoutExpired:
             p.kill()
             return {"ok": False, "why": "selftest timeout"}
@@ -97,7 +97,7 @@ def main(argv=None):
 
     det = {"ok": True, "skipped": True}
     if not args.no_selftest:
-        det = _determinism_selftest(prop_id, tier, seed, 24 if tier == "quick" else 200)
+        det = _determinism_selftest(prop_id, tier, seed, 24 if tier == "quick" else 64)
         if not det["ok"]:
             print(f"HARNESS-ERROR determinism self-test failed: {det['why']}")
             return 2
